@@ -10,10 +10,13 @@ ORACLE_TEXT = {2: 'emission panicked', 10: 'emitted text does not lex as OpenSCA
                22: 'colour name is not one OpenSCAD knows'}
 CLAUSE = {2: 'emit_total', 10: 'lex', 11: 'parse', 12: 'shape', 13: 'balanced', 20: 'param_binding', 21: 'param_values', 22: 'colour_known'}
 
+CLASSES = {}
 def split_cases(out):
     T, N = [], []
     for chunk in out.split('@@CASE@@ ')[1:]:
         kind, body = chunk[0], chunk[2:].rstrip('\n')
+        if '\n@@CLS@@ ' in body:
+            body, cls = body.rsplit('\n@@CLS@@ ', 1); CLASSES[body] = cls.strip()
         (T if kind == 'T' else N).append(body)
     return T, N
 
@@ -32,7 +35,7 @@ def run_text(prop, n, seed, c01=True, c02=True):
         if oracle_impl != 0:
             applicable = (oracle_impl in (2, 10, 11, 12, 13)) or (oracle_impl in (20, 21, 22) and c02)
             if applicable:
-                f = {'clause': CLAUSE.get(oracle_impl, str(oracle_impl)), 'key': CLAUSE.get(oracle_impl, ''), 'what': ORACLE_TEXT.get(oracle_impl), 'case': head,
+                f = {'clause': CLAUSE.get(oracle_impl, str(oracle_impl)), 'key': CLAUSE.get(oracle_impl, ''), 'what': ORACLE_TEXT.get(oracle_impl), 'case': head, 'tree_class': CLASSES.get(case, 'ordinary'),
                      'implementation_text': extract_text(case)[:800]}
                 if oracle_impl == 22 and m:
                     f['color'] = colour_name(int(m.group(1))); f['key'] = 'colour:' + f['color']
